@@ -24,3 +24,28 @@ Fixpoint put_cx (l : list CQ) : list Q :=
   | z :: r => qcq (re z) :: qcq (im z) :: put_cx r
   end.
 Definition getq (l : list Q) (i : nat) : Q := nth i l 0.
+
+(* ---- helpers shared by the per-property entry points ---- *)
+Definition optl (o : option (list Q)) : list Q := match o with None => [0%Q] | Some l => 1%Q :: l end.
+
+Definition cq_of_z (z : Z) : CQ := mkcx (qqc (zq z)) (qqc 0).
+
+Definition vec (l : list CQ) : nat -> CQ := fun k => nth k l (c0 QcOps).
+
+Fixpoint chunks {A} (n : nat) (m : nat) (l : list A) : list (list A) :=
+  match m with O => [] | S m' => firstn n l :: chunks n m' (skipn n l) end.
+
+Definition zs (l : list Q) : list Z := map qz l.
+
+Definition cr (q : Q) : CQ := mkcx (qqc q) (qqc 0).          (* real number as a complex *)
+Definition crs (l : list Q) : list CQ := map cr l.
+Definition ciQ : CQ := @ci QcOps.
+
+Definition qcs (l : list Q) : list QcOps := map qqc l.
+Definition unqcs (l : list QcOps) : list Q := map qcq l.
+
+Fixpoint idx_eqb (a b : list Z) : bool :=
+  match a, b with [], [] => true | x :: a', y :: b' => Z.eqb x y && idx_eqb a' b' | _, _ => false end.
+Fixpoint lookup (l : list (list Z * CQ)) (k : list Z) : CQ :=
+  match l with [] => c0 QcOps | (j, v) :: r => if idx_eqb j k then v else lookup r k end.
+
